@@ -187,10 +187,12 @@ def _prune_cache(keep):
         pass
 
 
-def extract_variant(config, rel, new_source_text, repo=None):
+def extract_variant(config, rel, files, repo=None):
     """Self-test support: re-extract ONE unit with the text of its main file
-    replaced (scratch copy outside /repo and /verif, removed immediately).
-    Returns the parsed facts for that TU."""
+    and/or of headers it includes replaced.  `files` maps repo-relative paths
+    to new text.  The scratch copies live in a mirror tree outside /repo and
+    /verif (removed immediately); quoted includes resolve to the mirror first
+    and to the repo's directories otherwise.  Returns (facts, error)."""
     repo = repo or REPO
     ensure_tool()
     builddir = tempfile.mkdtemp(prefix='opusverif-var-')
@@ -198,27 +200,42 @@ def extract_variant(config, rel, new_source_text, repo=None):
         entries = _configure(config, builddir, repo)
         ent = [e for e in entries if e['rel'] == rel]
         if not ent:
-            raise AnalysisBroken('unit %s not in configuration %s' % (rel, config))
+            return None, 'unit %s not in configuration %s' % (rel, config)
         e = ent[0]
-        # the scratch copy sits in a mirror directory so that relative includes
-        # ("../x.h", same-directory headers) resolve to the repo's headers
+        mirror = os.path.join(builddir, 'variant')
+        files = dict(files)
+        if rel not in files:
+            files[rel] = open(os.path.join(repo, rel)).read()
+        extra_inc = []
+        for r, text in files.items():
+            dst = os.path.join(mirror, r)
+            os.makedirs(os.path.dirname(dst), exist_ok=True)
+            with open(dst, 'w') as fh:
+                fh.write(text)
+            extra_inc.append(os.path.dirname(dst))
+        sp = os.path.join(mirror, rel)
         srcdir = os.path.dirname(e['file'])
-        scratch = os.path.join(builddir, 'variant', os.path.dirname(rel))
-        os.makedirs(scratch, exist_ok=True)
-        sp = os.path.join(scratch, os.path.basename(rel))
-        with open(sp, 'w') as fh:
-            fh.write(new_source_text)
-        cmd = e['command'].replace(' -c ' + e['file'], ' -I' + srcdir + ' -c ' + sp)
+        incs = ' '.join('-I' + d for d in dict.fromkeys(extra_inc)) + ' -I' + srcdir
+        cmd = e['command'].replace(' -c ' + e['file'], ' ' + incs + ' -c ' + sp)
+        # mirror include dirs must win over the repo's -I dirs
+        toks = cmd.split()
+        first_i = next((k for k, t in enumerate(toks) if t.startswith('-I')), 1)
+        toks = toks[:first_i] + ['-I' + d for d in dict.fromkeys(extra_inc)] + toks[first_i:]
+        cmd = ' '.join(toks)
         with open(os.path.join(builddir, 'compile_commands.json'), 'w') as fh:
             json.dump([{'directory': e['directory'], 'file': sp, 'command': cmd}], fh)
         outp = os.path.join(builddir, 'variant.json')
-        r = subprocess.run([TOOL, '-p', builddir, '--root', os.path.join(builddir, 'variant'), '-o', outp, sp],
+        r = subprocess.run([TOOL, '-p', builddir, '--root', mirror, '-o', outp, sp],
                            capture_output=True, text=True)
         if r.returncode != 0 or not os.path.exists(outp):
             return None, (r.stderr or '')[-1500:]
         tu = json.load(open(outp))
         if tu.get('errors'):
             return None, 'variant does not compile: ' + (r.stderr or '')[-800:]
+        # paths inside the repo keep their repo-relative form
+        txt = json.dumps(tu).replace(repo + '/', '')
+        tu = json.loads(txt)
+        tu['tu'] = rel
         return tu, None
     finally:
         shutil.rmtree(builddir, ignore_errors=True)
